@@ -3,6 +3,7 @@ import Driver.FlwDrv
 import Driver.ConcDrv
 import Driver.FmtDrv
 import Driver.NamesDrv
+import FlexiVerif.Model.Buf
 /-
   Line-protocol driver: reads cases from stdin, answers every line with one line.
 
@@ -69,6 +70,15 @@ def stepLine (st : MSt) (line : String) : MSt × String :=
           let mids := (List.range (d - 1)).map (fun j => s!"inner{j + 2} x{j + 1}\r\n")
           (st, Drv.textToHex (("inner1\r\n" ++ String.join mids ++ s!"outer x{d}\r\nplain\r\n").toList))
         | none => (st, "bad-op")
+      -- the in-memory log target (`log_to_buffer`): which records the snapshot holds afterwards
+      | ["BUFLOG", max, lens] =>
+        match max.toNat?, (lens.splitOn ",").mapM (·.toNat?) with
+        | some max, some lens =>
+          match FV.Buf.run (FV.Buf.init max) lens 0 with
+          | none => (st, "hang")
+          | some s =>
+            (st, if s.lines.isEmpty then "-" else " ".intercalate (s.lines.map (fun l => s!"{l.1}/{l.2}")))
+        | _, _ => (st, "bad-op")
       | _ => (st, "bad-op")
     -- robustness histories (C10): the only prediction is "the call returns"
     | .robust => (st, "ok")
